@@ -1,13 +1,13 @@
 SPECIFICATION RSpec
 CONSTANTS
-  LimbBase = 3
+  LimbBase = 2
   Stable = TRUE
   KeySet = {}
   ValSet = {}
-  HashVals = {0, 1, 2, 3, 4, 5, 6, 7, 8}
-  IntKeys = {0, 5}
-  NegKeys = {2}
+  HashVals = {0, 1, 2, 3}
+  RKeys = {1}
   ShardCounts = {1, 2, 3}
-INVARIANTS ObsSorted Explainable Complete FastIsRef MemoryOK
+INVARIANTS ObsSorted Explainable Complete FastIsRef MemoryOK FirstFree
+PROPERTIES Sticky
 VIEW RView
 CHECK_DEADLOCK FALSE
